@@ -477,7 +477,19 @@ func (x *Exec) unboundClauses() []string {
 				}
 			case "at-assert":
 				if x.anchorHits[k+"|"+c.Anchor+"|"+c.Label] == 0 {
-					out = append(out, fmt.Sprintf("%s: at %s [%s]", k, c.Anchor, c.Label))
+					// The statement the assertion is anchored at is gone (or no longer reachable):
+					// the step it constrains is no longer performed. Reported as a failed obligation
+					// under the clause's own name, not as an engine fault.
+					name := x.top.Key + "." + c.Label
+					if k != x.top.Key {
+						name = x.top.Key + "." + k + "#" + c.Label
+					}
+					pos := ""
+					if x.top.Decl != nil {
+						pos = x.e.pos(x.top.Decl.Pos())
+					}
+					x.vc.obls = append(x.vc.obls, &Obligation{Name: name, Func: x.top.Key, Kind: "anchor-missing", Pos: pos,
+						Clause: "the statement this clause is anchored at (at " + c.Anchor + " in " + k + ") is no longer executed: " + c.Src, Goal: "false", vc: x.vc})
 				}
 			}
 		}
